@@ -5,6 +5,8 @@ Operators, constructors and the admitted builtins respect value typing (C03, typ
 namespace Goml.ValTy
 open Goml Goml.Sem Goml.Wt Goml.Mono
 
+variable {S : Sig} {P : Prog}
+
 theorem tyEq {a b : Ty} (h : tyBeq a b = true) : a = b := (tyBeq_iff a b).1 h
 
 /-! ### operators -/
@@ -13,7 +15,7 @@ set_option hygiene false in
 macro "opfin" : tactic => `(tactic|
   first
   | contradiction
-  | (injection hr with hr; subst hr; first | simpa [valTy] using ha | simp [valTy]))
+  | (injection hr with hr; subst hr; first | constructor | (cases ha; constructor)))
 
 set_option hygiene false in
 macro "opall" : tactic => `(tactic|
@@ -21,8 +23,8 @@ macro "opall" : tactic => `(tactic|
     | opfin
     | (split at hr <;> opfin))
 
-theorem unop_sound {S : Sig} {op : UnOp} {ty ta : Ty} {a v : Val} (hok : unopOk op ty ta = true)
-    (ha : valTy S a ta = true) (hr : unop op a = .ok v) : valTy S v ty = true := by
+theorem unop_sound {op : UnOp} {ty ta : Ty} {a v : Val} (hok : unopOk op ty ta = true)
+    (ha : VT S P a ta) (hr : unop op a = .ok v) : VT S P v ty := by
   cases op <;> simp only [unopOk, Bool.and_eq_true] at hok
   · obtain ⟨_, h2⟩ := hok
     have := tyEq h2; subst this
@@ -36,8 +38,8 @@ theorem unop_sound {S : Sig} {op : UnOp} {ty ta : Ty} {a v : Val} (hok : unopOk 
     split at hr
     opall
 
-theorem binop_sound {S : Sig} {op : BinOp} {ty ta tb : Ty} {a b v : Val} (hok : binopOk op ty ta tb = true)
-    (ha : valTy S a ta = true) (_hb : valTy S b tb = true) (hr : binop op a b = .ok v) : valTy S v ty = true := by
+theorem binop_sound {op : BinOp} {ty ta tb : Ty} {a b v : Val} (hok : binopOk op ty ta tb = true)
+    (ha : VT S P a ta) (_hb : VT S P b tb) (hr : binop op a b = .ok v) : VT S P v ty := by
   cases op <;> simp only [binopOk, Bool.and_eq_true] at hok
   case add =>
     have h1 := tyEq hok.1.1; have h2 := tyEq hok.1.2; subst h1; subst h2
@@ -90,42 +92,6 @@ theorem binop_sound {S : Sig} {op : BinOp} {ty ta tb : Ty} {a b v : Val} (hok : 
 
 /-! ### canonical forms, builtins -/
 
-theorem valTy_str {S : Sig} {v : Val} (h : valTy S v .string = true) : ∃ s, v = .str s := by
-  have hn := valTy_nominal h
-  cases v <;> simp [valTy] at h <;> simp [nominalArgs, isEnumTy, isStructTy] at hn
-  exact ⟨_, rfl⟩
-
-theorem valTy_unit {S : Sig} {v : Val} (h : valTy S v .unit = true) : v = .unit := by
-  have hn := valTy_nominal h
-  cases v <;> simp [valTy] at h <;> simp [nominalArgs, isEnumTy, isStructTy] at hn
-  rfl
-
-theorem valTy_int {S : Sig} {v : Val} {b : Nat} {s : Bool} (h : valTy S v (.int b s) = true) : ∃ x, v = .int b s x := by
-  have hn := valTy_nominal h
-  cases v <;> simp [valTy] at h <;> simp [nominalArgs, isEnumTy, isStructTy] at hn
-  obtain ⟨rfl, rfl⟩ := h
-  exact ⟨_, rfl⟩
-
-theorem valTy_tuple {S : Sig} {v : Val} {ts : List Ty} (h : valTy S v (.tuple ts) = true) :
-    ∃ vs, v = .tuple vs ∧ valTys S vs ts = true := by
-  have hn := valTy_nominal h
-  cases v <;> simp [valTy] at h <;> simp [nominalArgs, isEnumTy, isStructTy] at hn
-  exact ⟨_, rfl, h⟩
-
-theorem valTys_single {S : Sig} {args : List Val} {t : Ty} (h : valTys S args [t] = true) :
-    ∃ a, args = [a] ∧ valTy S a t = true := by
-  cases args with
-  | nil => simp [valTys] at h
-  | cons a rest =>
-    simp only [valTys, Bool.and_eq_true] at h
-    have := valTys_nil_iff.1 (by
-      cases rest with
-      | nil => simp [valTys]
-      | cons _ _ => simp [valTys] at h : valTys S [] ([] : List Ty) = true)
-    cases rest with
-    | nil => exact ⟨a, rfl, h.1⟩
-    | cons _ _ => simp [valTys] at h
-
 set_option hygiene false in
 macro "int_ts' " nm:str pre:str : tactic => `(tactic|
   (have h1 : ($nm : String).endsWith "_to_string" = true := by decide +kernel
@@ -149,40 +115,59 @@ theorem b_uint32 (n s x) (w : World) : builtin "uint32_to_string" [.int n s x] w
 theorem b_uint64 (n s x) (w : World) : builtin "uint64_to_string" [.int n s x] w = some (.ok (.str (showInt x)) w) := by
   int_ts' "uint64_to_string" "uint"
 
+theorem b_f32 (n x) (w : World) : builtin "float32_to_string" [.float n x] w = some (.ok (.str (showFloat n x)) w) := by
+  have h1 : ("float32_to_string" : String).endsWith "_to_string" = true := by decide +kernel
+  have h2 : ("float32_to_string" : String).startsWith "float" = true := by decide +kernel
+  simp [Sem.builtin, h1, h2]
+theorem b_f64 (n x) (w : World) : builtin "float64_to_string" [.float n x] w = some (.ok (.str (showFloat n x)) w) := by
+  have h1 : ("float64_to_string" : String).endsWith "_to_string" = true := by decide +kernel
+  have h2 : ("float64_to_string" : String).startsWith "float" = true := by decide +kernel
+  simp [Sem.builtin, h1, h2]
+
 /-- an admitted builtin applied to arguments of its parameter types returns a value of its result type -/
-theorem builtin_sound {S : Sig} {f : String} {ps : List Ty} {r : Ty} {args : List Val} {w w' : World} {v : Val}
-    (hb : builtinTy f = some (.func ps r)) (ha : valTys S args ps = true)
+theorem builtin_sound {f : String} {ps : List Ty} {r : Ty} {args : List Val} {w w' : World} {v : Val}
+    (hb : builtinTy f = some (.func ps r)) (ha : VTs S P args ps)
     (hr : (match builtin f args w with
            | some r => r
            | none => .ok .unit { w with externs := w.externs ++ [f] }) = .ok v w') :
-    valTy S v r = true := by
+    VT S P v r := by
   unfold builtinTy at hb
   split at hb <;> simp only [Option.some.injEq, Ty.func.injEq, reduceCtorEq] at hb
-  all_goals (obtain ⟨rfl, rfl⟩ := hb; obtain ⟨a, rfl, ha1⟩ := valTys_single ha)
-  · obtain ⟨s, rfl⟩ := valTy_str ha1
-    simp [builtin] at hr; obtain ⟨rfl, _⟩ := hr; simp [valTy]
-  · obtain ⟨s, rfl⟩ := valTy_str ha1
-    simp [builtin] at hr; obtain ⟨rfl, _⟩ := hr; simp [valTy]
-  · have := valTy_unit ha1; subst this
-    simp [builtin] at hr; obtain ⟨rfl, _⟩ := hr; simp [valTy]
-  · obtain ⟨b, rfl⟩ := valTy_bool ha1
-    simp [builtin] at hr; obtain ⟨rfl, _⟩ := hr; simp [valTy]
-  · obtain ⟨x, rfl⟩ := valTy_int ha1
-    rw [b_int8] at hr; simp at hr; obtain ⟨rfl, _⟩ := hr; simp [valTy]
-  · obtain ⟨x, rfl⟩ := valTy_int ha1
-    rw [b_int16] at hr; simp at hr; obtain ⟨rfl, _⟩ := hr; simp [valTy]
-  · obtain ⟨x, rfl⟩ := valTy_int ha1
-    rw [b_int32] at hr; simp at hr; obtain ⟨rfl, _⟩ := hr; simp [valTy]
-  · obtain ⟨x, rfl⟩ := valTy_int ha1
-    rw [b_int64] at hr; simp at hr; obtain ⟨rfl, _⟩ := hr; simp [valTy]
-  · obtain ⟨x, rfl⟩ := valTy_int ha1
-    rw [b_uint8] at hr; simp at hr; obtain ⟨rfl, _⟩ := hr; simp [valTy]
-  · obtain ⟨x, rfl⟩ := valTy_int ha1
-    rw [b_uint16] at hr; simp at hr; obtain ⟨rfl, _⟩ := hr; simp [valTy]
-  · obtain ⟨x, rfl⟩ := valTy_int ha1
-    rw [b_uint32] at hr; simp at hr; obtain ⟨rfl, _⟩ := hr; simp [valTy]
-  · obtain ⟨x, rfl⟩ := valTy_int ha1
-    rw [b_uint64] at hr; simp at hr; obtain ⟨rfl, _⟩ := hr; simp [valTy]
+  all_goals (obtain ⟨rfl, rfl⟩ := hb; obtain ⟨a, rfl, ha1⟩ := VTs_single ha)
+  · obtain ⟨s, rfl⟩ := VT_str ha1
+    simp [builtin] at hr; obtain ⟨rfl, _⟩ := hr; constructor
+  · obtain ⟨s, rfl⟩ := VT_str ha1
+    simp [builtin] at hr; obtain ⟨rfl, _⟩ := hr; constructor
+  · have := VT_unit ha1; subst this
+    simp [builtin] at hr; obtain ⟨rfl, _⟩ := hr; constructor
+  · obtain ⟨b, rfl⟩ := VT_bool ha1
+    simp [builtin] at hr; obtain ⟨rfl, _⟩ := hr; constructor
+  · obtain ⟨x, rfl⟩ := VT_int ha1
+    rw [b_int8] at hr; simp at hr; obtain ⟨rfl, _⟩ := hr; constructor
+  · obtain ⟨x, rfl⟩ := VT_int ha1
+    rw [b_int16] at hr; simp at hr; obtain ⟨rfl, _⟩ := hr; constructor
+  · obtain ⟨x, rfl⟩ := VT_int ha1
+    rw [b_int32] at hr; simp at hr; obtain ⟨rfl, _⟩ := hr; constructor
+  · obtain ⟨x, rfl⟩ := VT_int ha1
+    rw [b_int64] at hr; simp at hr; obtain ⟨rfl, _⟩ := hr; constructor
+  · obtain ⟨x, rfl⟩ := VT_int ha1
+    rw [b_uint8] at hr; simp at hr; obtain ⟨rfl, _⟩ := hr; constructor
+  · obtain ⟨x, rfl⟩ := VT_int ha1
+    rw [b_uint16] at hr; simp at hr; obtain ⟨rfl, _⟩ := hr; constructor
+  · obtain ⟨x, rfl⟩ := VT_int ha1
+    rw [b_uint32] at hr; simp at hr; obtain ⟨rfl, _⟩ := hr; constructor
+  · obtain ⟨x, rfl⟩ := VT_int ha1
+    rw [b_uint64] at hr; simp at hr; obtain ⟨rfl, _⟩ := hr; constructor
+  · obtain ⟨b, rfl⟩ := VT_bool ha1
+    simp [builtin] at hr; obtain ⟨rfl, _⟩ := hr; constructor
+  · obtain ⟨s, rfl⟩ := VT_str ha1
+    simp [builtin] at hr; obtain ⟨rfl, _⟩ := hr; constructor
+  · obtain ⟨s, rfl⟩ := VT_str ha1
+    simp [builtin] at hr; obtain ⟨rfl, _⟩ := hr; constructor
+  · obtain ⟨x, rfl⟩ := VT_float ha1
+    rw [b_f32] at hr; simp at hr; obtain ⟨rfl, _⟩ := hr; constructor
+  · obtain ⟨x, rfl⟩ := VT_float ha1
+    rw [b_f64] at hr; simp at hr; obtain ⟨rfl, _⟩ := hr; constructor
 
 /-! ### constructors -/
 
@@ -204,7 +189,7 @@ theorem nominalArgs_name {n m : String} {ty : Ty} (h1 : (nominalArgs n ty).isSom
   unfold nominalArgs at h1 h2
   split at h1 <;> simp at h1 <;> simp_all
 
-theorem enumFieldTys_of_fieldTys {S : Sig} {tn vn : String} {idx : Nat} {ty : Ty} {fts : List Ty}
+theorem enumFieldTys_of_fieldTys {tn vn : String} {idx : Nat} {ty : Ty} {fts : List Ty}
     (h : fieldTys S (.enum tn vn idx) ty = some fts) : enumFieldTys S tn idx ty = some fts := by
   unfold enumFieldTys
   simp only [fieldTys] at h ⊢
